@@ -724,8 +724,7 @@ Definition monitor_step (m : mon) (e : ev) (o : obs) : mon * option string :=
   (* REPLACED means: another operator, of strictly higher priority, took the region in the same call *)
   let v_repl :=
     match e with
-    | EPoke _ _ => None
-    | _ =>
+    | EAdd [_] | EPromote | EAddWaiting _ =>     (* not: AddOperator(a, b, ...) - two operators of one call may replace each other *)
         first_some (map (fun x =>
           if status_eqb (snd x) REPLACED
              && negb (match alist_get (prev_status m) (fst x) with Some p => status_eqb p REPLACED | None => false end)
@@ -734,16 +733,16 @@ Definition monitor_step (m : mon) (e : ev) (o : obs) : mon * option string :=
                    match alist_get (b_running o) (o_rid old) with
                    | Some nid =>
                        if nid =? fst x then Some "C09:replaced-by-nothing"
-                       else match e, get_op c' nid with
-                            | EAdd [_], Some nw | EPromote, Some nw | EAddWaiting _, Some nw =>
-                                if o_level old <? o_level nw then None else Some "C09:replaced-by-not-higher-priority"
-                            | _, _ => None
+                       else match get_op c' nid with
+                            | Some nw => if o_level old <? o_level nw then None else Some "C09:replaced-by-not-higher-priority"
+                            | None => None
                             end
                    | None => Some "C09:replaced-by-nothing"
                    end
                | None => None
                end
           else None) (b_status o))
+    | _ => None
     end in
   (* a direct call of a status method makes at most one transition of the property's relation; an ended operator
      hands out no step *)
